@@ -2,4 +2,4 @@
 
 package main
 
-func init() { c16RaceEnabled = true }
+func init() { c16RaceEnabled = true; raceEnabled = true }
